@@ -148,6 +148,19 @@ def run(tier, seed):
             sp, _, mn, mx = gen_world(r)
             sp = [{"p": p, "k": "d"} for k, p in UNIVERSE if k == "d"] + [{"p": p, "k": "f", "data": b"x"} for k, p in UNIVERSE if k == "f"]
             worlds.append((sp, rules, None, None))
+        # ... and, because the engine prunes below a directory it has filtered out (which hides what the matcher says about the
+        # entries inside), the same rule lists behind rules that let the ancestors of a disagreeing path in: `+ <base name>` for every
+        # ancestor, as includes and as filter rules
+        for rules, iv, mv in diffs[:25]:
+            for pos in [j for j in range(min(len(iv), len(mv), len(UNIVERSE))) if iv[j] != mv[j]][:2]:
+                parts = UNIVERSE[pos][1].split("/")
+                anc = parts[:-1]
+                if not anc:
+                    continue
+                sp = [{"p": p, "k": "d"} for k, p in UNIVERSE if k == "d"] + [{"p": p, "k": "f", "data": b"x"} for k, p in UNIVERSE if k == "f"]
+                for lead in ([(1, a) for a in anc], [(0, "+ " + a) for a in anc]):
+                    rl = sorted(lead + list(rules), key=lambda x: 0 if x[0] == 0 else x[0])
+                    worlds.append((sp, rl, None, None))
         for idx, (spec, rules, mn, mx) in enumerate(worlds):
             src, rr, got = run_world(sc, idx, spec, rules, mn, mx)
             listing = vlib.run_sharded([os.path.join(vlib.BIN, "h_filter")], ["L " + hx(src)], shards=1)[0]
